@@ -31,6 +31,7 @@ Inductive cond :=
 | CNotTimerStop              (* !timeout.Stop()      -- performs the Stop *)
 | CBufNonEmpty               (* len(s.bufptr) > 0 *)
 | CPeekPositive              (* size := s.kcp.PeekSize(); size > 0 *)
+| CHasData                   (* len(s.bufptr) > 0 || s.kcp.PeekSize() > 0 *)
 | CRoom                      (* waitsnd < int(s.kcp.snd_wnd) *)
 | CNotOnce                   (* !once *)
 | CData.                     (* depends on data / configuration the model does not track:
